@@ -53,6 +53,7 @@ package tchannel
 // the destination): when the relay reports "not taken", nothing has been sent
 // for the call.
 //@ func (r *Relayer) handleLocalCallReq(cr *lazyCallReq) (shouldRelease bool)
+//@   inline
 //@   label a-call-not-taken-locally-has-not-been-answered
 //@   ensures !shouldRelease ==> errAttempts(old(r.conn)) == old(errAttempts(r.conn))
 //@   property C10
